@@ -3,6 +3,6 @@
 set -e
 cd /verif
 python3 tools/translate.py > /dev/null
-(cd lean && lake build nfdriver NetflowModel $(ls NetflowModel/Props/*.lean | sed "s#/#.#g; s#\.lean$##") 2>&1 | tail -3)
+(cd lean && lake build nfdriver NetflowModel $(ls NetflowModel/Props/*.lean | sed -e 's#/#.#g' -e 's#\.lean$##') 2>&1 | tail -3)
 (cd harness && CARGO_NET_OFFLINE=true cargo build --release --offline 2>&1 | tail -2)
 echo setup-ok
